@@ -162,6 +162,21 @@ use bio_seq::{
 };
 use std::cmp::Ordering;
 
+/// Everything `Ord`/`PartialOrd` says about a pair.
+#[derive(Debug, Clone, Copy, PartialEq, Eq, Hash)]
+pub struct CmpObs {
+    pub cmp: Ordering,
+    pub partial: Option<Ordering>,
+    pub lt: bool,
+    pub le: bool,
+    pub gt: bool,
+    pub ge: bool,
+}
+
+pub fn cmp_obs<T: Ord>(a: &T, b: &T) -> CmpObs {
+    CmpObs { cmp: a.cmp(b), partial: a.partial_cmp(b), lt: a < b, le: a <= b, gt: a > b, ge: a >= b }
+}
+
 pub trait Sx: Codec + Send + Sync + 'static {
     const CID: Cid;
     const HAS_COMP: bool = false;
@@ -212,6 +227,9 @@ pub trait Sx: Codec + Send + Sync + 'static {
         None
     }
     fn seq_cmp(_a: &Seq<Self>, _b: &Seq<Self>) -> Option<Ordering> {
+        None
+    }
+    fn seq_cmp_obs(_a: &Seq<Self>, _b: &Seq<Self>) -> Option<CmpObs> {
         None
     }
 }
@@ -285,6 +303,9 @@ macro_rules! sx_ord {
         }
         fn seq_cmp(a: &Seq<Self>, b: &Seq<Self>) -> Option<Ordering> {
             Some(Ord::cmp(a, b))
+        }
+        fn seq_cmp_obs(a: &Seq<Self>, b: &Seq<Self>) -> Option<CmpObs> {
+            Some(cmp_obs(a, b))
         }
     };
 }
